@@ -26,7 +26,7 @@ inductive Entry
   | ternary (rprec : Nat)
   /-- `x:lvalue() _ lex _ y:(@)`; `op = none` is plain `=` -/
   | assignOp (lex : Str) (op : Option BinOp) (rprec : Nat)
-  /-- `lex !['c'] _ x:(@)` -/
+  /-- `lex !("c" _ variable_name()) _ x:(@)` -/
   | prefixOp (lex : Str) (notNext : Option Char) (op : UnOp) (rprec : Nat)
   /-- `lex _ x:lvalue()` -/
   | preIncDec (lex : Str) (op : IncOp)
@@ -178,7 +178,11 @@ def applyPre (rec : Nat → Str → PR) (prec : Nat) (ent : Entry) (s : Str) : P
     match stripPrefix lex s with
     | none => none
     | some r1 =>
-      if (match notNext, r1 with | some c, c' :: _ => c == c' | _, _ => false) then none
+      -- negative lookahead `!(c _ variable_name())`: the sign doubled *and* a variable name after it is a
+      -- pre-increment/pre-decrement; before anything else the doubled sign is two unary signs (as in bash)
+      if (match notNext, r1 with
+          | some c, c' :: rest => c == c' && (match skipWs rest with | n :: _ => isNameStart n | [] => false)
+          | _, _ => false) then none
       else
         match rec (prec + rprec) (skipWs r1) with
         | none => none
